@@ -421,7 +421,15 @@ def extract_comment_on_table(expression: exp.Expression) -> exp.Expression:
     elif (
         isinstance(expression, exp.Comment)
         and (cexp := expression.args.get("expression"))
-        and (table := expression.find(exp.Table))
+        and (
+            (table := expression.find(exp.Table))
+            # COMMENT ON VIEW names its view by a bare (or dotted) identifier, not by a table expression
+            or (
+                str(expression.args.get("kind")).upper() == "VIEW"
+                and isinstance(expression.this, (exp.Identifier, exp.Dot, exp.Column))
+                and (table := exp.to_table(expression.this.sql(dialect="snowflake"), dialect="snowflake"))
+            )
+        )
     ):
         new = SUCCESS_NOP.copy()
         new.args["table_comment"] = (table, cexp.this)
